@@ -385,9 +385,17 @@ def compare(plan, ref, sub, ss_ref, ss_sub):
         if 'error' in rest:
             out.append(V('subprocess_restore', 'fresh-interpreter restore failed: %s' % rest['error'][-200:], what='error'))
             return out, info
-        tsb = np.concatenate([tsb, rest['t']])
-        xs = xs + list(rest['x'])
-        ys = ys + list(rest['y'])
+        # the in-memory series is part of the snapshot: the restored System returns the history before the cut followed by
+        # the continuation; the prefix must be exactly what had been stored before the snapshot was taken
+        n0 = len(tsb)
+        if len(rest['t']) < n0 or not np.array_equal(np.asarray(rest['t'][:n0]), tsb) or \
+                any(not np.array_equal(np.asarray(rest['x'][k]), xs[k]) for k in range(n0)):
+            out.append(V('subprocess_restore', 'the series held by the System restored in a fresh interpreter does not start with the %d '
+                         'rows stored before the snapshot' % n0, what='history'))
+            return out, info
+        tsb = np.asarray(rest['t'])
+        xs = list(rest['x'])
+        ys = list(rest['y'])
         sub_ok = bool(np.all(rest['rets']))
         x_fin, y_fin, t_fin = rest['xf'], rest['yf'], float(rest['tend'])
     else:
